@@ -36,7 +36,8 @@ def check_archive(fname, data, doc, directory, ext, v, case_d):
         z = zipfile.ZipFile(io.BytesIO(data))
     except Exception as e:
         v.append((sig("not-a-zip"), "result is not a readable ZIP archive: %s" % e, case_d)); return
-    bad = z.testzip()
+    try: bad = z.testzip()
+    except Exception as e: bad = "(a member that cannot be decompressed: %s)" % e        # zlib/zipfile raise on a stream that is not what the header says
     if bad: v.append((sig("crc"), "member %s fails its CRC" % bad, case_d)); return
     names = z.namelist()
     if len(names) != len(set(names)): v.append((sig("duplicate-member"), "duplicate member names %r" % names, case_d))
